@@ -326,6 +326,10 @@ func (c *fnCtx) eval(v ssa.Value) lset {
 				if fv := fieldVarOf(a); fv != nil {
 					out.union(c.e.fields[fv])
 				}
+				// an object marked as a whole (the request a RoundTripper sees): every field carries the marks
+				if m, ok := c.marked[a.X]; ok {
+					out.union(m)
+				}
 				// a local struct: what was stored into this field of the same base
 				for _, b := range c.fn.Blocks {
 					for _, in := range b.Instrs {
@@ -601,6 +605,18 @@ func (e *taintEngine) analyse(fn *ssa.Function) {
 			for _, rt := range valueRoots(a) {
 				c.marked[rt] = c.marked[a]
 			}
+		}
+	}
+	// a module type used as http.RoundTripper sees every request of the client it is installed in:
+	// the request (URL with login password / API key in the query, header with the session token)
+	// carries all request-borne secrets
+	if fn.Name() == "RoundTrip" && fn.Signature.Recv() != nil && len(fn.Params) == 2 &&
+		typeShort(fn.Params[1].Type()) == "*net/http.Request" {
+		req := fn.Params[1]
+		c.marked[req] = lset{
+			tAtom{Kind: 'C', Idx: int(lPassword), Origin: origin(fn, "request seen by a custom RoundTripper")}: 0,
+			tAtom{Kind: 'C', Idx: int(lAPIKey), Origin: origin(fn, "request seen by a custom RoundTripper")}: 0,
+			tAtom{Kind: 'C', Idx: int(lToken), Origin: origin(fn, "request seen by a custom RoundTripper")}: 0,
 		}
 	}
 	// container taints (two rounds to let them feed each other)
